@@ -1,1 +1,666 @@
-// placeholder
+//! G-MUTATE: structure-aware mutation of valid E57 files. `Walk` locates header fields, the XML
+//! text, section headers and packet headers (it is used only to *aim* mutations, never as an
+//! oracle). Mutated logical streams are re-paged and all checksums re-sealed with the harness's
+//! own CRC so that the mutations reach the parsers; a second family leaves pages unsealed.
+
+use crate::crc::{log_to_phys, logical, paged, phys_to_log, FastCrc, PAGE};
+use crate::rng::Rng;
+
+pub struct Walk {
+    pub log: Vec<u8>,       // logical stream
+    pub xml_log_off: usize, // logical offset of the XML
+    pub xml_len: usize,
+    pub xml: String,
+    pub xml_is_last: bool,
+    pub cv_sections: Vec<usize>, // logical offsets of compressed vector section headers
+    pub blob_sections: Vec<usize>,
+    pub packets: Vec<usize>, // logical offsets of packet headers (all sections)
+}
+
+fn u64_at(b: &[u8], o: usize) -> Option<u64> {
+    if o + 8 <= b.len() {
+        let mut a = [0u8; 8];
+        a.copy_from_slice(&b[o..o + 8]);
+        Some(u64::from_le_bytes(a))
+    } else {
+        None
+    }
+}
+
+/// all `name="digits"` occurrences
+fn attr_numbers<'a>(xml: &'a str, name: &str) -> Vec<(usize, usize, u64)> {
+    let pat = format!("{}=\"", name);
+    let mut out = Vec::new();
+    let mut from = 0;
+    while let Some(i) = xml[from..].find(&pat) {
+        let s = from + i + pat.len();
+        if let Some(e) = xml[s..].find('"') {
+            if let Ok(v) = xml[s..s + e].parse::<u64>() {
+                out.push((s, s + e, v));
+            }
+            from = s + e;
+        } else {
+            break;
+        }
+    }
+    out
+}
+
+impl Walk {
+    pub fn new(img: &[u8]) -> Option<Walk> {
+        if img.len() < PAGE || img.len() % PAGE != 0 {
+            return None;
+        }
+        let log = logical(img);
+        let xml_phys = u64_at(&log, 24)?;
+        let xml_len = u64_at(&log, 32)? as usize;
+        if xml_phys as usize >= img.len() {
+            return None;
+        }
+        let xml_log_off = phys_to_log(xml_phys) as usize;
+        if xml_log_off.checked_add(xml_len).map_or(true, |e| e > log.len()) {
+            return None;
+        }
+        let xml = String::from_utf8(log[xml_log_off..xml_log_off + xml_len].to_vec()).ok()?;
+        // XML is last if only zero padding follows
+        let xml_is_last = log[xml_log_off + xml_len..].iter().all(|b| *b == 0);
+        let mut cv_sections = Vec::new();
+        let mut blob_sections = Vec::new();
+        for (_, _, off) in attr_numbers(&xml, "fileOffset") {
+            if (off as usize) < img.len() {
+                let l = phys_to_log(off) as usize;
+                if l.saturating_add(32) <= log.len() {
+                    if log[l] == 1 {
+                        cv_sections.push(l);
+                    } else {
+                        blob_sections.push(l);
+                    }
+                }
+            }
+        }
+        cv_sections.sort();
+        cv_sections.dedup();
+        blob_sections.sort();
+        blob_sections.dedup();
+        let mut packets = Vec::new();
+        for &s in &cv_sections {
+            let sec_len = u64_at(&log, s + 8).unwrap_or(0) as usize;
+            let data_phys = u64_at(&log, s + 16).unwrap_or(0);
+            if data_phys as usize >= img.len() {
+                continue;
+            }
+            let mut p = phys_to_log(data_phys) as usize;
+            let end = s.saturating_add(sec_len).min(log.len());
+            let mut guard = 0;
+            while p + 4 <= end && guard < 10000 {
+                packets.push(p);
+                let plen = u16::from_le_bytes([log[p + 2], log[p + 3]]) as usize + 1;
+                if plen < 4 {
+                    break;
+                }
+                p += plen;
+                guard += 1;
+            }
+        }
+        Some(Walk { log, xml_log_off, xml_len, xml, xml_is_last, cv_sections, blob_sections, packets })
+    }
+
+    /// rebuild an image with a replaced XML text (XML must be the last thing in the file)
+    pub fn with_xml(&self, xml: &[u8], fc: &FastCrc) -> Vec<u8> {
+        let mut log = self.log[..self.xml_log_off].to_vec();
+        log.extend_from_slice(xml);
+        let mut img = paged(&log, fc);
+        let phys_len = img.len() as u64;
+        img[16..24].copy_from_slice(&phys_len.to_le_bytes());
+        img[32..40].copy_from_slice(&(xml.len() as u64).to_le_bytes());
+        fc.seal_page(&mut img, 0);
+        img
+    }
+
+    pub fn with_log(&self, log: &[u8], fc: &FastCrc) -> Vec<u8> {
+        paged(log, fc)
+    }
+}
+
+pub const HOSTILE_U64: &[u64] = &[
+    0, 1, 2, 3, 4, 7, 8, 15, 16, 31, 32, 47, 48, 49, 255, 256, 1019, 1020, 1021, 1023, 1024, 1025, 2047, 2048, 4095, 4096, 65535, 65536, 65537, 1 << 20, (1 << 20) + 1, 1 << 24, 1 << 31, (1 << 31) - 1, 1 << 32,
+    (1 << 32) + 1, 1 << 40, 1 << 53, 1 << 62, (1 << 63) - 1, 1 << 63, (1 << 63) + 1, u64::MAX - 16, u64::MAX - 15, u64::MAX - 4, u64::MAX - 3, u64::MAX - 1, u64::MAX, 10 * 1024 * 1024, 10 * 1024 * 1024 + 1, 10 * 1024 * 1024 - 1,
+];
+
+pub const HOSTILE_NUM_TEXT: &[&str] = &[
+    "0", "1", "-1", "2", "3", "-0", "255", "256", "65535", "65536", "2147483647", "2147483648", "-2147483648", "4294967295", "4294967296", "9223372036854775807", "9223372036854775808", "-9223372036854775808",
+    "-9223372036854775809", "18446744073709551615", "18446744073709551616", "NaN", "nan", "inf", "-inf", "INF", "infinity", "1e400", "-1e400", "1e-400", "1e308", "-1e308", "4.9e-324", "0.1", "-0.0", "1e", "", " ", "abc", "0x10", "1 2",
+    "99999999999999999999999999999999999999", "1.7976931348623157e308", "3.4028235e38", "3.5e38", "+5", "٣",
+];
+
+pub const OPS: &[&str] = &[
+    "xml-number", "xml-attr-recordCount", "xml-attr-fileOffset", "xml-attr-length", "xml-type-swap", "xml-drop-attr", "xml-dup-line", "xml-del-line", "xml-swap-lines", "xml-min-gt-max", "xml-all-min-eq-max",
+    "xml-proto-empty", "xml-proto-huge", "xml-entities", "xml-deep-nesting", "xml-bad-utf8", "xml-truncate", "xml-limits-hostile", "xml-invalid-state-range", "xml-precision",
+    "hdr-field", "cv-header-field", "packet-header", "packet-stream-len", "blob-header", "payload-bits", "splice-sections", "packet-chain-ignored", "packet-big-1bit", "zero-width-all",
+    "unsealed-flip", "truncate", "extend", "tiny", "xml-length-huge", "xml-offset-into-crc",
+];
+
+fn lines(xml: &str) -> Vec<&str> {
+    xml.split_inclusive('\n').collect()
+}
+
+fn replace_range(s: &str, a: usize, b: usize, with: &str) -> String {
+    let mut o = String::with_capacity(s.len() + with.len());
+    o.push_str(&s[..a]);
+    o.push_str(with);
+    o.push_str(&s[b..]);
+    o
+}
+
+/// positions of numeric-looking tokens: attribute values and element texts
+fn numeric_tokens(xml: &str) -> Vec<(usize, usize)> {
+    let b = xml.as_bytes();
+    let mut out = Vec::new();
+    let mut i = 0;
+    while i < b.len() {
+        let c = b[i];
+        let starts = (c == b'"' || c == b'>') && i + 1 < b.len() && (b[i + 1].is_ascii_digit() || b[i + 1] == b'-' || b[i + 1] == b'.');
+        if starts {
+            let s = i + 1;
+            let mut e = s;
+            while e < b.len() && (b[e].is_ascii_digit() || matches!(b[e], b'-' | b'+' | b'.' | b'e' | b'E')) {
+                e += 1;
+            }
+            if e < b.len() && (b[e] == b'"' || b[e] == b'<') && e > s {
+                out.push((s, e));
+            }
+            i = e;
+        } else {
+            i += 1;
+        }
+    }
+    out
+}
+
+pub struct Mutant {
+    pub img: Vec<u8>,
+    pub op: &'static str,
+    pub note: String,
+}
+
+/// Apply operator number `opn` (index into OPS) to the seed. Returns None if not applicable.
+pub fn mutate(w: &Walk, seed_img: &[u8], opn: usize, r: &mut Rng, fc: &FastCrc) -> Option<Mutant> {
+    let op = OPS[opn % OPS.len()];
+    let xml = &w.xml;
+    let xml_ops = op.starts_with("xml-") && !matches!(op, "xml-length-huge" | "xml-offset-into-crc");
+    if xml_ops && !w.xml_is_last {
+        return None;
+    }
+    let mk = |x: String, note: String| Some(Mutant { img: w.with_xml(x.as_bytes(), fc), op, note });
+    match op {
+        "xml-number" => {
+            let toks = numeric_tokens(xml);
+            if toks.is_empty() {
+                return None;
+            }
+            let n = 1 + r.usize(3);
+            let mut x = xml.clone();
+            let mut note = String::new();
+            for _ in 0..n {
+                let toks = numeric_tokens(&x);
+                if toks.is_empty() {
+                    break;
+                }
+                let (a, b) = *r.pick(&toks);
+                let with = *r.pick(HOSTILE_NUM_TEXT);
+                note.push_str(&format!("[{}->{}]", &x[a..b], with));
+                x = replace_range(&x, a, b, with);
+            }
+            mk(x, note)
+        }
+        "xml-attr-recordCount" | "xml-attr-fileOffset" | "xml-attr-length" => {
+            let name = &op["xml-attr-".len()..];
+            let occ = attr_numbers(xml, name);
+            if occ.is_empty() {
+                return None;
+            }
+            let (a, b, old) = *r.pick(&occ);
+            let v: u64 = match r.usize(6) {
+                0 => *r.pick(HOSTILE_U64),
+                1 => old.wrapping_add(*r.pick(&[1u64, 2, 3, 4, 8, 16, 32, 1020, 1024])),
+                2 => old.wrapping_sub(*r.pick(&[1u64, 2, 3, 4, 8, 16, 32, 1020, 1024])),
+                3 if name == "fileOffset" => {
+                    // point at another known structure: XML start, another section, a packet
+                    let mut c: Vec<usize> = vec![w.xml_log_off, 0, 48];
+                    c.extend(&w.cv_sections);
+                    c.extend(&w.blob_sections);
+                    c.extend(w.packets.iter().take(8));
+                    log_to_phys(*r.pick(&c) as u64)
+                }
+                4 if name == "fileOffset" => (seed_img.len() as u64).wrapping_add(r.below(2048)).wrapping_sub(1024),
+                _ => {
+                    let k = r.below(64);
+                    (1u64 << k).wrapping_add(r.below(3)).wrapping_sub(1)
+                }
+            };
+            mk(replace_range(xml, a, b, &v.to_string()), format!("{} {} -> {}", name, old, v))
+        }
+        "xml-type-swap" => {
+            let pat = "type=\"";
+            let occ: Vec<usize> = xml.match_indices(pat).map(|(i, _)| i + pat.len()).collect();
+            if occ.is_empty() {
+                return None;
+            }
+            let a = *r.pick(&occ);
+            let e = a + xml[a..].find('"')?;
+            let with = *r.pick(&["Integer", "Float", "ScaledInteger", "String", "Structure", "Vector", "CompressedVector", "Blob", "Bogus", ""]);
+            mk(replace_range(xml, a, e, with), format!("type {} -> {}", &xml[a..e], with))
+        }
+        "xml-drop-attr" => {
+            // remove one attribute (name="value") somewhere
+            let occ: Vec<usize> = xml.match_indices("=\"").map(|(i, _)| i).collect();
+            if occ.is_empty() {
+                return None;
+            }
+            let eq = *r.pick(&occ);
+            let start = xml[..eq].rfind(' ')?;
+            let end = eq + 2 + xml[eq + 2..].find('"')? + 1;
+            mk(replace_range(xml, start, end, ""), format!("dropped {}", &xml[start..end.min(start + 60)]))
+        }
+        "xml-dup-line" | "xml-del-line" | "xml-swap-lines" => {
+            let ls = lines(xml);
+            if ls.len() < 4 {
+                return None;
+            }
+            let i = 1 + r.usize(ls.len() - 2);
+            let mut v: Vec<String> = ls.iter().map(|s| s.to_string()).collect();
+            let note;
+            match op {
+                "xml-dup-line" => {
+                    let times = *r.pick(&[1usize, 1, 2, 50]);
+                    note = format!("dup x{} {}", times, v[i].trim());
+                    for _ in 0..times {
+                        v.insert(i, v[i].clone());
+                    }
+                }
+                "xml-del-line" => {
+                    note = format!("del {}", v[i].trim());
+                    v.remove(i);
+                }
+                _ => {
+                    let j = 1 + r.usize(ls.len() - 2);
+                    note = format!("swap {} <-> {}", v[i].trim(), v[j].trim());
+                    v.swap(i, j);
+                }
+            }
+            mk(v.concat(), note)
+        }
+        "xml-min-gt-max" => {
+            let occ = attr_like(xml, "minimum");
+            if occ.is_empty() {
+                return None;
+            }
+            let (a, b) = *r.pick(&occ);
+            let with = *r.pick(&["9223372036854775807", "1e300", "inf", "256", "2"]);
+            mk(replace_range(xml, a, b, with), format!("minimum -> {}", with))
+        }
+        "xml-all-min-eq-max" => {
+            // every minimum/maximum of the prototype becomes the same constant: all widths zero
+            let mut x = xml.clone();
+            for name in ["minimum", "maximum"] {
+                // single pass rebuild (the document may hold tens of thousands of attributes)
+                let occ = attr_like(&x, name);
+                let mut y = String::with_capacity(x.len());
+                let mut at = 0;
+                for (a, b) in occ {
+                    y.push_str(&x[at..a]);
+                    y.push('5');
+                    at = b;
+                }
+                y.push_str(&x[at..]);
+                x = y;
+            }
+            mk(x, "all min=max=5".into())
+        }
+        "zero-width-all" => {
+            if !w.xml_is_last {
+                return None;
+            }
+            // prototype replaced by zero-width integers only + huge record count
+            let ps = xml.find("<prototype")?;
+            let pe = xml[ps..].find("</prototype>")? + ps;
+            let open_end = xml[ps..].find('>')? + ps + 1;
+            let n = 1 + r.usize(3);
+            let mut body = String::new();
+            for i in 0..n {
+                let names = ["cartesianX", "cartesianY", "cartesianZ"];
+                body.push_str(&format!("<{} type=\"Integer\" minimum=\"7\" maximum=\"7\"/>\n", names[i % 3]));
+            }
+            let mut x = replace_range(xml, open_end, pe, &body);
+            if let Some((a, b, _)) = attr_numbers(&x, "recordCount").first().cloned() {
+                let rc = *r.pick(&["5", "100000", "4294967296", "18446744073709551615"]);
+                x = replace_range(&x, a, b, rc);
+            }
+            mk(x, format!("{} zero-width records", n))
+        }
+        "xml-proto-empty" => {
+            let ps = xml.find("<prototype")?;
+            let pe = xml[ps..].find("</prototype>")? + ps;
+            let open_end = xml[ps..].find('>')? + ps + 1;
+            mk(replace_range(xml, open_end, pe, ""), "empty prototype".into())
+        }
+        "xml-proto-huge" => {
+            let ps = xml.find("<prototype")?;
+            let open_end = xml[ps..].find('>')? + ps + 1;
+            let n = *r.pick(&[100usize, 1000, 20000]);
+            let mut body = String::new();
+            for i in 0..n {
+                body.push_str(&format!("<x{} type=\"Integer\" minimum=\"0\" maximum=\"{}\"/>\n", i, r.below(3)));
+            }
+            mk(replace_range(xml, open_end, open_end, &body), format!("{} extra records", n))
+        }
+        "xml-entities" => {
+            let decl_end = xml.find("?>").map(|i| i + 2).unwrap_or(0);
+            let mut dtd = String::from("\n<!DOCTYPE e57Root [\n<!ENTITY a \"aaaaaaaaaaaaaaaaaaaaaaaaaaaaaaaaaaaaaaaaaaaaaaaaaaaaaaaaaaaaaaaa\">\n");
+            let mut prev = 'a';
+            for c in ['b', 'c', 'd', 'e', 'f', 'g', 'h', 'i'] {
+                dtd.push_str(&format!("<!ENTITY {} \"&{};&{};&{};&{};&{};&{};&{};&{};\">\n", c, prev, prev, prev, prev, prev, prev, prev, prev));
+                prev = c;
+            }
+            dtd.push_str("]>\n");
+            let mut x = replace_range(xml, decl_end, decl_end, &dtd);
+            // use it inside the guid
+            if let Some(i) = x.find("<guid type=\"String\">") {
+                let at = i + "<guid type=\"String\">".len();
+                x = replace_range(&x, at, at, "&i;");
+            }
+            mk(x, "billion laughs".into())
+        }
+        "xml-deep-nesting" => {
+            let depth = *r.pick(&[100usize, 1000, 5000, 50000]);
+            let at = xml.rfind("</e57Root>")?;
+            let mut body = String::new();
+            for _ in 0..depth {
+                body.push_str("<n type=\"Structure\">");
+            }
+            for _ in 0..depth {
+                body.push_str("</n>");
+            }
+            mk(replace_range(xml, at, at, &body), format!("nesting {}", depth))
+        }
+        "xml-bad-utf8" => {
+            if xml.is_empty() {
+                return None;
+            }
+            let mut b = xml.as_bytes().to_vec();
+            let i = r.usize(b.len());
+            b[i] = *r.pick(&[0xFFu8, 0xC0, 0x80, 0xED, 0xF8, 0x00]);
+            Some(Mutant { img: w.with_xml(&b, fc), op, note: format!("byte {} -> {:#x}", i, b[i]) })
+        }
+        "xml-truncate" => {
+            let mut cut = r.usize(xml.len());
+            while !xml.is_char_boundary(cut) {
+                cut -= 1;
+            }
+            mk(xml[..cut].to_string(), format!("cut at {}", cut))
+        }
+        "xml-limits-hostile" => {
+            // inject / overwrite limits with hostile numbers and types
+            let at = xml.find("<points ")?;
+            let vals = ["NaN", "inf", "-inf", "1e400", "0", "1", "-1", "9223372036854775807", "-9223372036854775808", "abc", ""];
+            let types = ["Float", "Integer", "ScaledInteger", "Float\" precision=\"single", "String"];
+            let mut inj = String::from("<intensityLimits type=\"Structure\">\n");
+            inj.push_str(&format!("<intensityMinimum type=\"{}\">{}</intensityMinimum>\n", r.pick(&types), r.pick(&vals)));
+            inj.push_str(&format!("<intensityMaximum type=\"{}\">{}</intensityMaximum>\n", r.pick(&types), r.pick(&vals)));
+            inj.push_str("</intensityLimits>\n<colorLimits type=\"Structure\">\n");
+            for c in ["Red", "Green", "Blue"] {
+                inj.push_str(&format!("<color{}Minimum type=\"{}\">{}</color{}Minimum>\n", c, r.pick(&types), r.pick(&vals), c));
+                inj.push_str(&format!("<color{}Maximum type=\"{}\">{}</color{}Maximum>\n", c, r.pick(&types), r.pick(&vals), c));
+            }
+            inj.push_str("</colorLimits>\n");
+            mk(replace_range(xml, at, at, &inj), "hostile limits injected before <points>".into())
+        }
+        "xml-invalid-state-range" => {
+            // widen the range of a state/flag record so that out-of-set values become decodable
+            let names = ["cartesianInvalidState", "sphericalInvalidState", "isColorInvalid", "isIntensityInvalid", "isTimeStampInvalid", "rowIndex", "columnIndex"];
+            let cands: Vec<usize> = names.iter().filter_map(|n| xml.find(&format!("<{} ", n))).collect();
+            if cands.is_empty() {
+                return None;
+            }
+            let s = *r.pick(&cands);
+            let e = s + xml[s..].find('>')?;
+            let seg = &xml[s..e];
+            let mx = seg.find("maximum=\"")? + 9;
+            let mxe = mx + seg[mx..].find('"')?;
+            let with = *r.pick(&["3", "7", "255", "-1"]);
+            mk(replace_range(xml, s + mx, s + mxe, with), format!("state maximum -> {}", with))
+        }
+        "xml-precision" => {
+            let occ: Vec<usize> = xml.match_indices("type=\"Float\"").map(|(i, _)| i + 12).collect();
+            if occ.is_empty() {
+                return None;
+            }
+            let a = *r.pick(&occ);
+            let with = *r.pick(&[" precision=\"single\"", " precision=\"double\"", " precision=\"half\"", " precision=\"\""]);
+            mk(replace_range(xml, a, a, with), format!("inserted{}", with))
+        }
+        "hdr-field" => {
+            let mut log = w.log.clone();
+            let (off, len) = *r.pick(&[(0usize, 8usize), (8, 4), (12, 4), (16, 8), (24, 8), (32, 8), (40, 8)]);
+            let v = *r.pick(HOSTILE_U64);
+            let bytes = v.to_le_bytes();
+            log[off..off + len].copy_from_slice(&bytes[..len]);
+            Some(Mutant { img: w.with_log(&log, fc), op, note: format!("header@{} <- {}", off, v) })
+        }
+        "xml-length-huge" => {
+            let mut log = w.log.clone();
+            let v: u64 = *r.pick(&[10 * 1024 * 1024u64, 10 * 1024 * 1024 - 1, 10 * 1024 * 1024 + 1, 1 << 30, u64::MAX, (w.xml_len as u64) + 1, (w.xml_len as u64).saturating_sub(1), (log.len() - w.xml_log_off) as u64, (log.len() - w.xml_log_off) as u64 + 1]);
+            log[32..40].copy_from_slice(&v.to_le_bytes());
+            Some(Mutant { img: w.with_log(&log, fc), op, note: format!("xml_length <- {}", v) })
+        }
+        "xml-offset-into-crc" => {
+            let mut log = w.log.clone();
+            let pages = (seed_img.len() / PAGE) as u64;
+            let v: u64 = r.below(pages + 1) * PAGE as u64 + *r.pick(&[1020u64, 1021, 1022, 1023, 1019, 0, 1]);
+            log[24..32].copy_from_slice(&v.to_le_bytes());
+            Some(Mutant { img: w.with_log(&log, fc), op, note: format!("xml_offset <- {}", v) })
+        }
+        "cv-header-field" => {
+            if w.cv_sections.is_empty() {
+                return None;
+            }
+            let s = *r.pick(&w.cv_sections);
+            let mut log = w.log.clone();
+            match r.usize(5) {
+                0 => {
+                    log[s] = *r.pick(&[0u8, 2, 255]);
+                }
+                1 => {
+                    let i = 1 + r.usize(7);
+                    log[s + i] = 1 + r.usize(255) as u8; // reserved bytes
+                }
+                k => {
+                    let off = s + 8 * (k - 1);
+                    let old = u64_at(&log, off).unwrap_or(0);
+                    let v = match r.usize(4) {
+                        0 => *r.pick(HOSTILE_U64),
+                        1 => old.wrapping_add(*r.pick(&[1u64, 2, 3, 4, 6, 8, 32, 1020, 1024])),
+                        2 => old.wrapping_sub(*r.pick(&[1u64, 2, 3, 4, 6, 8, 32, 1020, 1024])),
+                        _ => log_to_phys(r.below(log.len() as u64)),
+                    };
+                    log[off..off + 8].copy_from_slice(&v.to_le_bytes());
+                }
+            }
+            Some(Mutant { img: w.with_log(&log, fc), op, note: format!("cv header @{}", s) })
+        }
+        "packet-header" | "packet-stream-len" => {
+            if w.packets.is_empty() {
+                return None;
+            }
+            let p = *r.pick(&w.packets);
+            let mut log = w.log.clone();
+            if p + 8 > log.len() {
+                return None;
+            }
+            if op == "packet-header" {
+                match r.usize(4) {
+                    0 => log[p] = *r.pick(&[0u8, 2, 3, 255]),
+                    1 => log[p + 1] = r.u64() as u8,
+                    2 => {
+                        let v = *r.pick(&[0u16, 1, 2, 3, 4, 5, 7, 8, 15, 16, 17, 0xFFFF, 0xFFFE, 0xFFFC, 0xFFFB, 0x7FFF, 0x8000]);
+                        log[p + 2..p + 4].copy_from_slice(&v.to_le_bytes());
+                    }
+                    _ => {
+                        let v = *r.pick(&[0u16, 1, 2, 255, 0xFFFF, 1000]);
+                        log[p + 4..p + 6].copy_from_slice(&v.to_le_bytes());
+                    }
+                }
+            } else {
+                let count = u16::from_le_bytes([log[p + 4], log[p + 5]]) as usize;
+                if count == 0 || p + 6 + 2 * count > log.len() {
+                    return None;
+                }
+                let i = r.usize(count);
+                let v = *r.pick(&[0u16, 1, 2, 3, 0xFFFF, 0x8000, 0x7FFF, 1020, 1024]);
+                log[p + 6 + 2 * i..p + 8 + 2 * i].copy_from_slice(&v.to_le_bytes());
+            }
+            Some(Mutant { img: w.with_log(&log, fc), op, note: format!("packet @{}", p) })
+        }
+        "blob-header" => {
+            if w.blob_sections.is_empty() {
+                return None;
+            }
+            let s = *r.pick(&w.blob_sections);
+            let mut log = w.log.clone();
+            if r.chance(1, 4) {
+                log[s] = *r.pick(&[1u8, 2, 255]);
+            } else {
+                let v = *r.pick(HOSTILE_U64);
+                log[s + 8..s + 16].copy_from_slice(&v.to_le_bytes());
+            }
+            Some(Mutant { img: w.with_log(&log, fc), op, note: format!("blob header @{}", s) })
+        }
+        "payload-bits" => {
+            let mut log = w.log.clone();
+            let lo = 48usize;
+            let hi = w.xml_log_off.max(lo + 1).min(log.len());
+            if hi <= lo {
+                return None;
+            }
+            let n = 1 + r.usize(16);
+            for _ in 0..n {
+                let i = lo + r.usize(hi - lo);
+                log[i] ^= 1 << r.usize(8);
+            }
+            Some(Mutant { img: w.with_log(&log, fc), op, note: format!("{} bit flips in the binary sections", n) })
+        }
+        "splice-sections" => {
+            let mut all: Vec<usize> = w.cv_sections.clone();
+            all.extend(&w.blob_sections);
+            all.extend(w.packets.iter().take(6));
+            if all.len() < 2 {
+                return None;
+            }
+            let a = *r.pick(&all);
+            let b = *r.pick(&all);
+            let n = *r.pick(&[16usize, 32, 64, 256]);
+            let mut log = w.log.clone();
+            if a + n > log.len() || b + n > log.len() {
+                return None;
+            }
+            let src = log[a..a + n].to_vec();
+            log[b..b + n].copy_from_slice(&src);
+            Some(Mutant { img: w.with_log(&log, fc), op, note: format!("copied {} bytes {} -> {}", n, a, b) })
+        }
+        "packet-chain-ignored" => {
+            // the data area of a section becomes a chain of 4-byte ignored packets up to the end of the stream
+            if w.packets.is_empty() {
+                return None;
+            }
+            let p = w.packets[0];
+            let mut log = w.log.clone();
+            let extra_pages = *r.pick(&[0usize, 4, 64]);
+            let xml_copy = log[w.xml_log_off..w.xml_log_off + w.xml_len].to_vec();
+            let _ = xml_copy;
+            let end = w.xml_log_off.min(log.len());
+            let mut i = p;
+            while i + 4 <= end {
+                log[i] = 2;
+                log[i + 1] = 0;
+                log[i + 2] = 3;
+                log[i + 3] = 0;
+                i += 4;
+            }
+            let _ = extra_pages;
+            Some(Mutant { img: w.with_log(&log, fc), op, note: format!("ignored packet chain from {} to {}", p, end) })
+        }
+        "packet-big-1bit" => {
+            // first packet claims maximal stream lengths
+            if w.packets.is_empty() {
+                return None;
+            }
+            let p = w.packets[0];
+            let mut log = w.log.clone();
+            if p + 8 > log.len() {
+                return None;
+            }
+            let count = u16::from_le_bytes([log[p + 4], log[p + 5]]) as usize;
+            log[p + 2..p + 4].copy_from_slice(&0xFFFFu16.to_le_bytes());
+            for i in 0..count {
+                if p + 8 + 2 * i <= log.len() {
+                    log[p + 6 + 2 * i..p + 8 + 2 * i].copy_from_slice(&0xFFFFu16.to_le_bytes());
+                }
+            }
+            Some(Mutant { img: w.with_log(&log, fc), op, note: "all stream lengths 65535".into() })
+        }
+        "unsealed-flip" => {
+            let mut img = seed_img.to_vec();
+            let n = 1 + r.usize(8);
+            for _ in 0..n {
+                let i = r.usize(img.len());
+                img[i] ^= 1 << r.usize(8);
+            }
+            Some(Mutant { img, op, note: format!("{} raw bit flips", n) })
+        }
+        "truncate" => {
+            let img = seed_img.to_vec();
+            let cut = match r.usize(4) {
+                0 => (r.usize(img.len() / PAGE + 1)) * PAGE,
+                1 => r.usize(49),
+                _ => r.usize(img.len()),
+            };
+            Some(Mutant { img: img[..cut.min(img.len())].to_vec(), op, note: format!("cut to {}", cut) })
+        }
+        "extend" => {
+            let mut img = seed_img.to_vec();
+            let n = *r.pick(&[1usize, 4, 1023, 1024, 1025, 4096]);
+            let fill = *r.pick(&[0u8, 0xFF, 0x41]);
+            img.extend(std::iter::repeat(fill).take(n));
+            if r.bool() && img.len() % PAGE == 0 {
+                fc.seal(&mut img);
+            }
+            Some(Mutant { img, op, note: format!("extended by {}", n) })
+        }
+        "tiny" => {
+            let n = *r.pick(&[0usize, 1, 7, 8, 16, 39, 40, 47, 48, 49, 1023, 1024]);
+            let mut img = seed_img[..n.min(seed_img.len())].to_vec();
+            if r.bool() {
+                img = r.bytes(n);
+            }
+            Some(Mutant { img, op, note: format!("{} bytes", n) })
+        }
+        _ => None,
+    }
+}
+
+/// attribute values for `name="..."` (any content)
+fn attr_like(xml: &str, name: &str) -> Vec<(usize, usize)> {
+    let pat = format!("{}=\"", name);
+    let mut out = Vec::new();
+    let mut from = 0;
+    while let Some(i) = xml[from..].find(&pat) {
+        let s = from + i + pat.len();
+        if let Some(e) = xml[s..].find('"') {
+            out.push((s, s + e));
+            from = s + e;
+        } else {
+            break;
+        }
+    }
+    out
+}
